@@ -78,6 +78,11 @@ func (r *bucketRegistry) unregisterBucket(bucket *Bucket) {
 	r.lock.Lock()
 	defer r.lock.Unlock()
 
+	if registered := r.buckets[name]; registered == nil || registered.sqliteDB != bucket.sqliteDB {
+		// this handle belongs to a bucket that has since been deleted (and possibly re-created under
+		// the same name): it holds no reference of the bucket that is registered now
+		return
+	}
 	bucketCount := r.bucketCount[name]
 	if bucketCount == 0 {
 		// not registered (any more), e.g. the bucket was deleted through another handle
